@@ -153,6 +153,16 @@ protected:
 		return RapidJsonNode(value.data(), static_cast<rapidjson::SizeType>(value.size()), allocator);
 	}
 
+	/// <summary>
+	/// Handles a value which is neither an object nor an array where one of them is expected (null is excluded, like for other types).
+	/// </summary>
+	static void HandleMismatchedScopePolicy(const RapidJsonNode& jsonValue, MismatchedTypesPolicy mismatchedTypesPolicy)
+	{
+		if (!jsonValue.IsNull()) {
+			HandleMismatchedTypesPolicy(mismatchedTypesPolicy);
+		}
+	}
+
 	static void HandleMismatchedTypesPolicy(MismatchedTypesPolicy mismatchedTypesPolicy)
 	{
 		if (mismatchedTypesPolicy == MismatchedTypesPolicy::ThrowError)
@@ -256,7 +266,7 @@ public:
 			if (jsonValue.IsObject()) {
 				return std::make_optional<RapidJsonObjectScope<TMode, TEncoding, TAllocator>>(&jsonValue, mAllocator, this->GetContext(), this);
 			}
-			RapidJsonScopeBase<TEncoding>::HandleMismatchedTypesPolicy(this->GetContext().GetOptions().mismatchedTypesPolicy);
+			RapidJsonScopeBase<TEncoding>::HandleMismatchedScopePolicy(jsonValue, this->GetContext().GetOptions().mismatchedTypesPolicy);
 			return std::nullopt;
 		}
 		else
@@ -275,7 +285,7 @@ public:
 			if (jsonValue.IsArray()) {
 				return std::make_optional<RapidJsonArrayScope<TMode, TEncoding, TAllocator>>(&jsonValue, mAllocator, this->GetContext(), this);
 			}
-			RapidJsonScopeBase<TEncoding>::HandleMismatchedTypesPolicy(this->GetContext().GetOptions().mismatchedTypesPolicy);
+			RapidJsonScopeBase<TEncoding>::HandleMismatchedScopePolicy(jsonValue, this->GetContext().GetOptions().mismatchedTypesPolicy);
 			return std::nullopt;
 		}
 		else
@@ -400,7 +410,7 @@ public:
 				{
 					return std::make_optional<RapidJsonObjectScope<TMode, TEncoding, TAllocator>>(jsonValue, mAllocator, this->GetContext(), this, key);
 				}
-				RapidJsonScopeBase<TEncoding>::HandleMismatchedTypesPolicy(this->GetContext().GetOptions().mismatchedTypesPolicy);
+				RapidJsonScopeBase<TEncoding>::HandleMismatchedScopePolicy(*jsonValue, this->GetContext().GetOptions().mismatchedTypesPolicy);
 			}
 			return std::nullopt;
 		}
@@ -423,7 +433,7 @@ public:
 				{
 					return std::make_optional<RapidJsonArrayScope<TMode, TEncoding, TAllocator>>(jsonValue, mAllocator, this->GetContext(), this, key);
 				}
-				RapidJsonScopeBase<TEncoding>::HandleMismatchedTypesPolicy(this->GetContext().GetOptions().mismatchedTypesPolicy);
+				RapidJsonScopeBase<TEncoding>::HandleMismatchedScopePolicy(*jsonValue, this->GetContext().GetOptions().mismatchedTypesPolicy);
 			}
 			return std::nullopt;
 		}
@@ -595,7 +605,7 @@ public:
 			{
 				return std::make_optional<RapidJsonArrayScope<TMode, TEncoding, allocator_type>>(&mRootJson, mRootJson.GetAllocator(), this->GetContext());
 			}
-			RapidJsonScopeBase<TEncoding>::HandleMismatchedTypesPolicy(this->GetContext().GetOptions().mismatchedTypesPolicy);
+			RapidJsonScopeBase<TEncoding>::HandleMismatchedScopePolicy(mRootJson, this->GetContext().GetOptions().mismatchedTypesPolicy);
 			return std::nullopt;
 		}
 		else
@@ -616,7 +626,7 @@ public:
 			{
 				return std::make_optional<RapidJsonObjectScope<TMode, TEncoding, allocator_type>>(&mRootJson, mRootJson.GetAllocator(), this->GetContext());
 			}
-			RapidJsonScopeBase<TEncoding>::HandleMismatchedTypesPolicy(this->GetContext().GetOptions().mismatchedTypesPolicy);
+			RapidJsonScopeBase<TEncoding>::HandleMismatchedScopePolicy(mRootJson, this->GetContext().GetOptions().mismatchedTypesPolicy);
 			return std::nullopt;
 		}
 		else
